@@ -10,7 +10,7 @@ import sys
 from abc import ABCMeta, abstractmethod
 from contextlib import contextmanager
 from types import CodeType, FrameType
-from typing import Any, Callable, Dict, Iterator, Optional, Union, cast
+from typing import Any, Callable, Dict, Iterator, Optional, Set, Union, cast
 
 import opcode
 
@@ -183,6 +183,15 @@ RETURN_OPCODES = tuple(
 )
 YIELD_VALUE_OPCODE = opcode.opmap["YIELD_VALUE"]
 
+# Code whose frames are suspended and resumed, each resumption being reported
+# to the profiler as another call
+_RESUMABLE_CODE_FLAGS = (
+    inspect.CO_GENERATOR
+    | inspect.CO_COROUTINE
+    | inspect.CO_ITERABLE_COROUTINE
+    | inspect.CO_ASYNC_GENERATOR
+)
+
 # A CodeFilter is a predicate that decides whether or not a the call for the
 # supplied code object should be traced.
 CodeFilter = Callable[[CodeType], bool]
@@ -215,6 +224,8 @@ class CallTracer:
     ) -> None:
         self.logger = logger
         self.traces: Dict[FrameType, CallTrace] = {}
+        # generator/coroutine frames that were not sampled and have not finished yet
+        self.unsampled: Set[FrameType] = set()
         self.sample_rate = sample_rate
         self.cache: Dict[CodeType, Optional[Callable[..., Any]]] = {}
         self.should_trace = code_filter
@@ -227,16 +238,20 @@ class CallTracer:
         return self.cache[code]
 
     def handle_call(self, frame: FrameType) -> None:
+        # I can't figure out a way to access the value sent to a generator via
+        # send() from a stack frame.
+        if frame in self.traces or frame in self.unsampled:
+            # resuming a generator; we've already seen this frame
+            return
+        code = frame.f_code
         if self.sample_rate and random.randrange(self.sample_rate) != 0:
+            if code.co_flags & _RESUMABLE_CODE_FLAGS:
+                # remember the decision, or a later resumption of this frame
+                # would be sampled as if it were a new call
+                self.unsampled.add(frame)
             return
         func = self._get_func(frame)
         if func is None:
-            return
-        code = frame.f_code
-        # I can't figure out a way to access the value sent to a generator via
-        # send() from a stack frame.
-        if frame in self.traces:
-            # resuming a generator; we've already seen this frame
             return
         arg_names = code.co_varnames[: code.co_argcount + code.co_kwonlyargcount]
         arg_types = {}
@@ -258,6 +273,8 @@ class CallTracer:
         last_opcode = frame.f_code.co_code[frame.f_lasti]
         trace = self.traces.get(frame)
         if trace is None:
+            if last_opcode != YIELD_VALUE_OPCODE:
+                self.unsampled.discard(frame)
             return
         elif last_opcode == YIELD_VALUE_OPCODE:
             # A coroutine suspending on an `await` also leaves its frame through
